@@ -237,6 +237,53 @@ def h_late(t1, who, t2):
     return ['late', j]
 
 
+def h_queued(who, state):
+    """a kernel ACQUIRE arrives while the endpoint waits for the response to a request of its own (every such state): nothing is raised, nothing is
+    sent; once the outstanding exchange is over the ACQUIRE is negotiated - both ends hold a CHILD_SA for that traffic"""
+    from symx import core
+    from ipaddress import ip_network
+    eng = core.engine()
+    S = MODS['ikesa'].IkeSa.State
+    TS = MODS['message'].TrafficSelector
+    p = world.Pair()
+    out = p.to_state(who, state)
+    me, E, peer, PE = (p.a, p.A, p.b, p.B) if who == 'A' else (p.b, p.B, p.a, p.A)
+    port = 9555
+    mine, theirs = ('192.168.0.1/32', '192.168.0.2/32') if who == 'A' else ('192.168.0.2/32', '192.168.0.1/32')
+    tsi = TS.from_network(ip_network(mine), port if who == 'A' else 23, TS.IpProtocol.TCP)
+    tsr = TS.from_network(ip_network(theirs), 23 if who == 'A' else port, TS.IpProtocol.TCP)
+    try:
+        r = E.call(me.process_acquire, tsi, tsr, 1 if who == 'A' else 2)
+    except Exception as ex:      # noqa
+        return {'class': ['queued'], 'violation': f'{who} in {state}: an ACQUIRE raised {type(ex).__name__}: {ex}'}
+    if state in ('REK_IKE_SA_REQ_SENT', 'DEL_AFTER_REKEY_IKE_SA_REQ_SENT'):
+        # an IKE_SA that is being replaced: whether the ACQUIRE waits, is handed to the successor or is lost is not judged (observation in DESIGN.md)
+        return ['queued', 'rekeyed']
+    if r is not None:
+        return {'class': ['queued'], 'violation': f'{who} in {state}: a second request was sent while one is outstanding'}
+    d, to, other = out, (peer, PE), (me, E)
+    for _ in range(16):
+        if d is None:
+            break
+        d = to[1].call(to[0].process_message, d)
+        to, other = other, to
+    live_me = me.new_ike_sa if me.state in (S.REKEYED, S.DELETED) and me.new_ike_sa is not None else me
+    live_peer = peer.new_ike_sa if peer.state in (S.REKEYED, S.DELETED) and peer.new_ike_sa is not None else peer
+    if state in ('DEL_IKE_SA_REQ_SENT',):
+        return ['queued', 'ike_sa deleted']
+    want = {'NEW_CHILD_REQ_SENT': 3, 'REK_CHILD_REQ_SENT': 2, 'DEL_CHILD_REQ_SENT': 1, 'DPD_REQ_SENT': 2}.get(state)
+    has = lambda sa: want is None or len(sa.child_sas) == want
+    if state in ('REK_IKE_SA_REQ_SENT', 'DEL_AFTER_REKEY_IKE_SA_REQ_SENT'):
+        # an IKE_SA that is replaced never becomes idle again (recorded as an observation in DESIGN.md): not judged here
+        return ['queued', 'rekeyed']
+    if live_me.state != S.ESTABLISHED or live_peer.state != S.ESTABLISHED:
+        return {'class': ['queued'], 'violation': f'{who} in {state} + ACQUIRE: after everything was delivered the IKE_SAs are {live_me.state.name} / {live_peer.state.name}'}
+    if not has(live_me) or not has(live_peer):
+        return {'class': ['queued'], 'violation': f'{who} in {state}: after the outstanding exchange and the queued ACQUIRE the endpoints hold {len(live_me.child_sas)} / '
+                                                  f'{len(live_peer.child_sas)} CHILD_SAs, expected {want} on both (the ACQUIRE was lost or negotiated twice)'}
+    return ['queued', 'negotiated']
+
+
 # ----------------------------------------------------------------------------- (a) local one-step rules
 WAITING = ('INIT_REQ_SENT', 'AUTH_REQ_SENT', 'NEW_CHILD_REQ_SENT', 'REK_CHILD_REQ_SENT', 'REK_IKE_SA_REQ_SENT', 'DEL_CHILD_REQ_SENT',
            'DEL_IKE_SA_REQ_SENT', 'DEL_AFTER_REKEY_IKE_SA_REQ_SENT', 'DPD_REQ_SENT')
@@ -329,6 +376,10 @@ def build_instances(tier):
         for mode in (('drop',) if tier == 'quick' else ('drop', 'dup')):
             inst.append(Instance(f'crossing {t}@A x {t2}@B one datagram {mode}', h_loss, (t, 'A', mode, t2), native=nat(h_loss),
                                  engine_kw={'max_ticks': 10 ** 7}))
+    for who, states in (('A', world.ALL_STATES_A), ('B', world.ALL_STATES_B)):
+        for st in states:
+            if st.endswith('REQ_SENT') and st not in ('INIT_REQ_SENT', 'AUTH_REQ_SENT'):
+                inst.append(Instance(f'ACQUIRE at {who} while in {st}', h_queued, (who, st), native=nat(h_queued)))
     for t1 in TRIGGERS:
         for t2 in TRIGGERS:
             for w in (('A',) if tier == 'quick' and (t1 in ('dpd', 'acquire') or t2 in ('dpd',)) else ('A', 'B')):
